@@ -23,3 +23,24 @@ Definition run (x : sx) : sx :=
        L_ (map (fun k => enc_oz (vget v k)) (as_nats (nth_sx 2 x)));
        L_ (map (fun n => enc_oz (vname v n)) (as_zs (nth_sx 3 x)));
        of_opt (fun h => L_ (map (fun q : Z * nat => L_ [Z_ (fst q); of_nat (snd q)]) h)) (vhdr v) ].
+
+(* sparse rows.  request: (items stages label query-keys) with stages (0 ((k kind z) ...)) | (1 (k ...)) | (2 shift); label = () or (k)
+   answer: (len keys items (get k ...)) of the row, then for a labelled row its label and (len keys items) of its feats *)
+From Coba Require Import C13.ModelSparse.
+Definition dec_pairs (x : sx) : list (Z * Z) := map (fun p => (as_z (nth_sx 0 p), as_z (nth_sx 1 p))) (as_l x).
+Definition dec_sstage (x : sx) : sstage :=
+  match as_z (nth_sx 0 x) with
+  | 0 => let encs := map (fun p => (as_z (nth_sx 0 p), dec_enc (L_ [nth_sx 1 p; nth_sx 2 p]))) (as_l (nth_sx 1 x)) in ModelSparse.SEncode encs (nsp_of encs)
+  | 1 => ModelSparse.SDrop (as_zs (nth_sx 1 x))
+  | _ => ModelSparse.SHead (as_z (nth_sx 1 x))
+  end.
+Definition enc_items (l : list (Z * Z)) : sx := L_ (map (fun kv => L_ [Z_ (fst kv); Z_ (snd kv)]) l).
+Definition run_sparse (x : sx) : sx :=
+  let v := spipeline (map dec_sstage (as_l (nth_sx 1 x))) (dec_pairs (nth_sx 0 x)) in
+  let qs := as_zs (nth_sx 3 x) in
+  let show r := [of_nat (slen r); of_zs (skeys r); enc_items (sitems r)] in
+  match as_zs (nth_sx 2 x) with
+  | [] => L_ (show v ++ [L_ (map (fun k => enc_oz (sget v k)) qs)])
+  | lab :: _ => let r := slabel_row lab v in
+                L_ (show r ++ [L_ (map (fun k => enc_oz (sget r k)) qs); enc_oz (slabel lab v); L_ (show (sfeats lab v))])
+  end.
